@@ -111,6 +111,9 @@ func runC01(c *rt.Ctx) {
 			cfgs = append(cfgs, Cfg{Orca: o, Lock: "none", Proto: p, L1H: "batched"})
 		}
 	}
+	// the same deployments as rend's own main program builds them from its command line (flags,
+	// lock-set sharing between the two ports, listeners, handler constructors, accept loop)
+	cfgs = append(cfgs, AppCfgs()...)
 	totalStates, totalTrans := 0, 0
 	for i, cfg := range cfgs {
 		if !c.Mine(i) {
